@@ -210,7 +210,7 @@ pub fn pair<M: Model, R: Conv<M::F>>(ctx: &Ctx<M, R>, rep: &mut Report, rng: &mu
 }
 
 /// exhaustive run over a toy curve, sharded by the index of the first operand
-pub fn toy_exhaustive<M: Model>(meta: &'static cfgs::toy_curves::ToyMeta, shard: usize, shards: usize, rep: &mut Report, rng: &mut Rng, args: &Args) {
+pub fn toy_exhaustive<M: Model>(meta: &'static ToyDesc, shard: usize, shards: usize, rep: &mut Report, rng: &mut Rng, args: &Args) {
     let ctx = toy_ctx::<M>(meta);
     rep.config(&format!("toy::{} ({})", meta.name, meta.note));
     let pts = if ctx.complete { &ctx.points } else { &ctx.subgroup };
@@ -225,7 +225,7 @@ pub fn toy_exhaustive<M: Model>(meta: &'static cfgs::toy_curves::ToyMeta, shard:
     } else {
         "curve: short Weierstrass, a != 0"
     });
-    rep.class_if(meta.ext_degree > 1, "curve: extension base field");
+    rep.class_if(meta.deg > 1, "curve: extension base field");
     rep.class_if(meta.h > 1, "curve: cofactor > 1");
     let sel = Sel { all_reps: !args.quick(), enumerated: true };
     for (i, p) in pts.iter().enumerate() {
@@ -315,7 +315,7 @@ pub fn items(args: &Args) -> Vec<Item> {
     let shards = 8usize;
     macro_rules! toy_sw {
         ($name:literal, $cfg:ty) => {
-            let meta = cfgs::toy_curves::TOY_CURVES.iter().find(|m| m.name == $name).unwrap();
+            let meta = crate::model::toy_desc($name);
             for s in 0..shards {
                 v.push(Item::new(format!("c03/toy::{}/{}", $name, s), move |rep, rng, args| {
                     for c in REQUIRED_TOY { rep.require(c); }
@@ -326,13 +326,14 @@ pub fn items(args: &Args) -> Vec<Item> {
     }
     macro_rules! toy_te {
         ($name:literal, $cfg:ty) => {
-            let meta = cfgs::toy_curves::TOY_CURVES.iter().find(|m| m.name == $name).unwrap();
+            let meta = crate::model::toy_desc($name);
             for s in 0..shards {
                 v.push(Item::new(format!("c03/toy::{}/{}", $name, s), move |rep, rng, args| toy_exhaustive::<TEm<$cfg>>(meta, s, shards, rep, rng, args)));
             }
         };
     }
     cfgs::for_each_toy_sw!(toy_sw);
+    cfgs::for_each_toy_sw3!(toy_sw);
     cfgs::for_each_toy_te!(toy_te);
     let iters = args.pick(100usize, 8000);
     macro_rules! sw {
